@@ -501,7 +501,7 @@ func main() {
 	r.Set("operation_shapes", fmt.Sprint(shapes))
 	var st stats
 	// own wall-clock budget (stops exploring, never an alarm): the run is then reported exhaustive:false
-	limit := 50 * time.Second
+	limit := 180 * time.Second // quick: generous, so that a loaded machine does not cut the sweep short (the run budget is 4 min)
 	if r.Thorough() {
 		limit = 8 * time.Minute
 	}
